@@ -96,6 +96,14 @@ pub fn run_case(_ctx: &Ctx, case: &Value, tag: usize, rep: &mut Report, mb: &mut
             let n = words.len() as u32;
             // canonical tokenizers too: forcing then looks at the token references possible at a position
             let canonical = rng.chance(1, 2);
+            // a canonical tokenizer maps a byte string to one token: entries that repeat the bytes of a lower id cannot be
+            // told apart from it once forced text goes through the byte level, so the canonical worlds have none
+            let mut words = words;
+            if canonical {
+                for i in 0..words.len() {
+                    if !words[i].is_empty() && words[..i].contains(&words[i]) { words[i] = vec![]; }
+                }
+            }
             let Ok(w) = World::new(words, eos, canonical, None) else { rep.skip("world"); return; };
             let mut gen_ref = |rng: &mut Rng| -> (String, Vec<u32>) {
                 match rng.below(5) {
@@ -185,7 +193,7 @@ pub fn run_case(_ctx: &Ctx, case: &Value, tag: usize, rep: &mut Report, mb: &mut
                 if m.consume_token(sep as u32).is_err() { rep.skip("sep-rejected"); return; }
                 if !check(&mut m, &r.1, &format!("reference {i} {} of {} in one grammar", r.0, refs.len()), rep) { return; }
                 let Some(&t) = r.1.iter().find(|t| **t != w.eos) else { rep.skip("only-eos"); return; };
-                if m.consume_token(t).is_err() { rep.fail("oracle", "c19:reference-token-rejected", format!("{}: denoted token {t} rejected", r.0), repro.clone()); return; }
+                if let Err(e) = m.consume_token(t) { rep.fail("oracle", "c19:reference-token-rejected", format!("{}: denoted token {t} ({}) rejected: {}", r.0, vocab::hex(&w.words[t as usize]), eng::err_class(&e.to_string())), repro.clone()); return; }
             }
             if !check(&mut m, &[b'Q' as u32], "text after the last reference", rep) { return; }
             rep.nontrivial(format!("multiref|{}", refs.iter().map(|r| r.0.clone()).collect::<Vec<_>>().join(" ")));
